@@ -27,7 +27,9 @@ MUST = ["spelling.styles", "trivia.comment", "trivia.pi", "trivia.whitespace", "
         "history.style_changes", "baseline.fresh_process", "path.ContextCalibratorList", "path.EntryList", "path.ComparisonList"]
 RULE = ("case = (document IR, rendering = namespace convention x trivia placement, history of prior loads); fingerprint "
         "(canonical written XML + decode of steered packets) must equal the baseline. Renderings: 15 namespace conventions; inter-element whitespace layouts "
-        "(none at all = whole document on one line, CRLF, blank lines, tabs, no indentation); "
+        "(none at all = whole document on one line, CRLF, blank lines, tabs, no indentation); an unrelated default namespace "
+        "declared next to the XTCE prefix; the document handed over as stream / str path / Path / open file / load_xml; names "
+        "containing characters XTCE permits (parentheses, punctuation) under five conventions; tolerated float spellings; "
         "for every distinct element-only parent path of the document, comments / processing instructions / whitespace "
         "before, between and after its children. Histories: 0-5 prior loads drawn from other documents in other "
         "conventions, malformed XML, wrong xtce_ns_prefix, semantically broken documents; baselines from fresh child "
